@@ -273,6 +273,20 @@ def check(item, tier):
                 return None
             return (tuple(map(repr, res.path)), getattr(res, 'path_value', None), tuple(sorted(map(repr, res.visited))))
 
+        # conversion wrappers must be independent: convert this MDP, then convert a different one, then search on the first wrapper
+        if REPR[ki] != 'next_state':
+            from msdm.core.mdp.deterministic_shortest_path import DeterministicShortestPathProblem as DSP
+            try:
+                p1 = DSP.from_mdp(prob)
+                other_edges = tuple(tuple((t, c + 3) for t, c in e[::-1]) for e in edges[::-1])
+                other, _, _ = build_problem(n, other_edges, {0}, REPR[ki], strl)
+                DSP.from_mdp(other)
+                for algo2, resx in (('astar', AStarSearch(heuristic_value=heur['zero']).plan_on(p1)), ('bfs', BreadthFirstSearch().plan_on(p1))):
+                    r.count('executions')
+                    judge(resx, algo2, {'heuristic': 'zero', 'tie_breaking': 'lifo', 'randomize_action_order': False,
+                                        'converted_before_another_mdp': True})
+            except BaseException as e:
+                r.violation('exception', {'where': 'from_mdp interleaving', 'error': repr(e)[:300], 'repr': REPR[ki]}, item)
         configs = [('bfs', None, None, False), ('bfs', None, None, True)]
         for hk in heur:
             for tb in ('lifo', 'fifo', 'random'):
